@@ -40,19 +40,28 @@ Theorem C12_results_at_most_once : forall c ls s, run c (init c) ls = Some s ->
 Proof. exact results_at_most_once. Qed.
 Print Assumptions C12_results_at_most_once.
 
-(* the scheduler cannot get stuck before the end — provided there is at least one job;
-   every trace has at most 4 * runners steps, so the run ends.  With zero jobs
-   (--num-processes 0) the faithful model, like the implementation, never starts anything:
-   see pending/C12-num-processes-nonpositive.md *)
-Theorem C12_scheduler_never_stuck_partial : forall c s, 1 <= c_jobs c ->
-  terminal c s = true \/ exists l s', exec c s l = Some s'.
-Proof. exact deadlock_free. Qed.
-Print Assumptions C12_scheduler_never_stuck_partial.
-Theorem C12_scheduler_never_stuck_refuted :
-  exists c ls s, c = mk_cfg [true] 1 0 0%Z /\ c_jobs c = 0 /\ run c (init c) ls = Some s /\
-                 terminal c s = false /\ forall l, exec c s l = None.
-Proof. exact zero_jobs_stuck. Qed.
-Print Assumptions C12_scheduler_never_stuck_refuted.
+(* the scheduler cannot get stuck before the end, for every command line that is accepted:
+   a non-positive -j/--num-processes is refused at option parsing (nothing runs); a positive
+   one, or none — whatever MESON_TESTTHREADS / MESON_NUM_PROCESSES hold, determine_worker_count
+   gives at least 1 — is accepted, and from then on some transition is always enabled until
+   the run has ended.  Every trace has at most 4 * runners steps, so the run ends. *)
+Theorem C12_nonpositive_jobs_rejected : forall tp rep n a b cpus mf, (n <= 0)%Z ->
+  cli_cfg tp rep (Some n) a b cpus mf = Rejected.
+Proof. exact cli_rejects_nonpositive. Qed.
+Print Assumptions C12_nonpositive_jobs_rejected.
+Theorem C12_positive_or_default_jobs_accepted : forall tp rep opt a b cpus mf,
+  (match opt with Some n => (1 <= n)%Z | None => True end) ->
+  exists c, cli_cfg tp rep opt a b cpus mf = Accepted c.
+Proof. exact cli_accepts. Qed.
+Print Assumptions C12_positive_or_default_jobs_accepted.
+Theorem C12_scheduler_never_stuck : forall tp rep opt a b cpus mf c,
+  cli_cfg tp rep opt a b cpus mf = Accepted c ->
+  forall ls s, run c (init c) ls = Some s -> terminal c s = true \/ exists l s', exec c s l = Some s'.
+Proof. exact cli_never_stuck. Qed.
+Print Assumptions C12_scheduler_never_stuck.
+Theorem C12_default_jobs_positive : forall a b cpus, 1 <= determine_worker_count a b cpus.
+Proof. exact worker_count_positive. Qed.
+Print Assumptions C12_default_jobs_positive.
 Theorem C12_scheduler_terminates : forall c ls s,
   run c (init c) ls = Some s -> length ls <= 4 * nrun c.
 Proof. exact run_length_bound. Qed.
